@@ -30,6 +30,12 @@ def judge_ssh(ck, ex, res):
                 desc, ci, "accepts" if accepted else "rejects", auth, res.get("notes")), rp)
             return
         if accepted and runs:
+            got_err, want_err = [x for x in client if x.get("method") == "stderr"], [x for x in replied if x.get("method") == "stderr"]
+            replied = [x for x in replied if x.get("method") == "data"]
+            if got_err != want_err:
+                ck.disagree("ssh-proxy/stderr-changed-or-missing", "%s: client %d: the backend wrote %s to the session's standard error, the client read %s (%s)" % (
+                    desc, ci, json.dumps(want_err)[:200], json.dumps(got_err)[:200], res.get("notes")), rp)
+                return
             got = [x for x in client if x.get("method") == "data"]
             if got != replied:
                 ck.disagree("ssh-proxy/reply-changed-or-missing", "%s: client %d: backend wrote %s, client read %s (%s)" % (
@@ -105,6 +111,11 @@ def run(tier, lab):
         if dev == "adds_header" and rd.violated != "Inv":
             raise lib.Infra("deviation adds_header does not violate BackendSawExactlyClientSent in the model")
     exs = [dict(e, id=i) for i, e in enumerate({json.dumps(s, sort_keys=True): s for s in r.scn}.values())]
+    # ssh: the backend's reply has two streams (standard output and, as extended data of the same channel, standard error); each
+    # is a FIFO leg of Proxy.tla of its own - half of the ssh exchanges also carry 1 / 700 / 40000 bytes of standard error
+    for e in exs:
+        if e["kind"] == "ssh":
+            e["stderr"] = [0, 1, 0, 700, 0, 40000][e["id"] % 6]
     results = {x["id"]: x for x in lib.run_sharded(lab, "c15", exs, shards=min(lib.NCPU, 8), timeout=1800)}
     kinds = {}
     for ex in exs:
